@@ -37,12 +37,19 @@ static const char *keyfilename = certfilename;		/**< path to SSL key filename, d
 int
 find_servercert(const char *localport)
 {
-	const size_t oldlen = strlen(certfilename);
+	/* length of the name without the suffix that an earlier call
+	 * (EHLO may be given more than once) has appended */
+	const size_t oldlen = strlen("control/servercert.pem");
 	/* here we can use openat(), but the SSL functions can't,
 	 * so the directory name must still be part of certfilename,
 	 * but we can skip over it here. */
 	const size_t diroffs = strlen("control/");
 	size_t iplen;
+
+	/* start again from the plain names */
+	certfilename[oldlen] = '\0';
+	keyfilenamebuf[oldlen - 1] = '\0';
+	keyfilename = certfilename;
 
 	/* append ".<ip>" to the normal certfilename */
 	certfilename[oldlen] = '.';
